@@ -94,8 +94,8 @@ CHECKS["C20"] = dict(
 CHECKS["C06"] = dict(
     category="proof",
     text="(a) Denotation consistency of every shape class from the real source: Circle.contains_point(p) <=> |p-c| <= r and the exported geometry is a disc around the centre; Rectangle._compute_vertices are exactly the corners c + R(theta)(+-l/2, +-w/2) and the exported polygon is that ring; Rectangle/Polygon/ShapeGroup.contains_point(p) <=> p in the exported geometry (incl. the bounding-box pre-check); the lanelet polygon is right boundary ++ reversed left boundary. (b) The spatial index (buffered polygons, STRtree, id map) mirrors the current lanelet polygons on every construction route: add_lanelet, create_from_lanelet_list, add_lanelets_from_network (also with an id clash), deepcopy, __getstate__/__setstate__, translate_rotate, remove_lanelet. (c) find_lanelet_by_position / find_lanelet_by_shape / contains_points / get_obstacles / map_obstacles_to_lanelets / filter_obstacles_in_network return exactly what the predicates select (group occupancies: any member). All discharged by z3 for symbolic query points, shapes and poses. One listed known finding: the exported circle has radius r/2.",
-    note="relative to shapely: point-in-polygon / intersects are uninterpreted predicates on denotations, STRtree.query is assumed exact w.r.t. them, a polygon's points lie in its bounding box (assumed geometry fact); the 'geometric truth' of shapely itself is not decided; 2-lanelet networks; the half-radius circle geometry is a recorded known finding (KNOWN_FINDINGS.txt), not repaired because the unedited suite encodes it",
-    technique="deductive: AST symbolic execution of real source with abstract geometric predicates, representation invariant of the spatial index per construction route, VCs discharged by z3",
+    note="relative to shapely: point-in-polygon / intersects are uninterpreted predicates on denotations, STRtree.query is assumed exact w.r.t. them, a polygon's points lie in its bounding box (assumed geometry fact); the 'geometric truth' of shapely as the library uses it is checked BOUNDED only (labelled so, never counted as discharged): 10 seeded networks (40 thorough) of 6 curved / overlapping / adjacent lanelets x 4 construction routes x 600 query points and 120 query shapes against an independent even-odd point-in-polygon and segment-intersection implementation, boundary cases within 1e-7 skipped; 2-lanelet networks; the half-radius circle geometry is a recorded known finding (KNOWN_FINDINGS.txt), not repaired because the unedited suite encodes it",
+    technique="deductive: AST symbolic execution of real source with abstract geometric predicates, representation invariant of the spatial index per construction route, VCs discharged by z3; shapely-vs-planar-geometry agreement: bounded native comparison on seeded networks",
     design_ref="5/C06",
 )
 
